@@ -581,14 +581,42 @@ def _boundary_const_ok(e):
 def tail_rule(ctx):
     p = ctx.p
     res = RuleResult("SPL-TAIL", "unconstrained wrappers: closed inside mask on one bound, complementary outside mask, identity with zero log-det outside, square box in the same bound, constant boundary derivative from the forwarded min_derivative")
+    import copy as _copy
+
+    from ..inline import write_out_helpers
+    from ..model import FuncInfo as _FI
+
     for inner, outer in spline_funcs(p):
         fn = outer.node
+        # private module-level helpers (a mask helper returning both masks) are written out first
+        def _resolve(call, _mod=outer.module):
+            if isinstance(call.func, ast.Name) and call.func.id.startswith("_"):
+                r = p.resolve_expr(_mod, call.func)
+                if isinstance(r, _FI) and r.cls is None:
+                    return (r.node, False)
+            return None
+
+        if any(isinstance(c, ast.Call) and _resolve(c) is not None for st in fn.body if isinstance(st, (ast.Assign, ast.Expr)) for c in [st.value] if isinstance(c, ast.Call)):
+            try:
+                fn2 = _copy.deepcopy(fn)
+                fn2.body = write_out_helpers(fn2.body, _resolve)
+                for parent in ast.walk(fn2):
+                    for child in ast.iter_child_nodes(parent):
+                        child._parent = parent
+                fn = fn2
+            except Exception:
+                fn = outer.node
         params = [a for a, _ in outer.params()]
         x = params[0]
         assigns = {}
         for n in ast.walk(fn):
             if isinstance(n, ast.Assign) and len(n.targets) == 1 and isinstance(n.targets[0], ast.Name):
                 assigns.setdefault(n.targets[0].id, []).append(n)
+        # a plain copy of another local (the written-out helper's result) stands for that local's definition
+        for nm in list(assigns):
+            v = assigns[nm][0].value
+            if len(assigns[nm]) == 1 and isinstance(v, ast.Name) and v.id in assigns and len(assigns[v.id]) == 1:
+                assigns[nm] = assigns[v.id]
         # inside mask: (x >= -B) & (x <= B)
         inside = None
         B = None
@@ -624,7 +652,7 @@ def tail_rule(ctx):
         outside = None
         for onm, ns in assigns.items():
             v = ns[0].value
-            if isinstance(v, ast.UnaryOp) and isinstance(v.op, ast.Invert) and isinstance(v.operand, ast.Name) and v.operand.id == nm:
+            if isinstance(v, ast.UnaryOp) and isinstance(v.op, ast.Invert) and isinstance(v.operand, ast.Name) and (v.operand.id == nm or (assigns.get(v.operand.id) is not None and assigns.get(v.operand.id) is assigns.get(nm))):
                 outside = (onm, "~inside")
             elif isinstance(v, ast.BinOp) and isinstance(v.op, ast.BitOr):
                 a1, a2 = _cmp_parts(v.left), _cmp_parts(v.right)
@@ -808,8 +836,50 @@ def square_rule(ctx):
 # ---------------------------------------------------------------------------------------
 
 
-def _canon_minmax(test):
+def _expand_guard_helper(p, module, test):
+    """A guard that is a call of a small helper (`torchutils.outside_interval(inputs, lo, hi)`): the helper's
+    returned test with its parameters replaced, and what its locals stand for --
+    `lo_, hi_ = torch.aminmax(x)` / `... = torch.stack(torch.aminmax(x)).tolist()` bind the two extremes
+    (as Python floats after .tolist() / .item())."""
+    from ..inline import expand_call
+    from ..model import FuncInfo
+
+    if not isinstance(test, ast.Call):
+        return test, {}
+    r = p.resolve_expr(module, test.func) if isinstance(test.func, (ast.Name, ast.Attribute)) else None
+    if not isinstance(r, FuncInfo) or r.cls is not None:
+        return test, {}
+    ex = expand_call(test, r.node, False)
+    if ex is None:
+        return test, {}
+    pre, result = ex
+    env = {}
+    for st in pre:
+        if not (isinstance(st, ast.Assign) and len(st.targets) == 1):
+            return test, {}
+        t, v = st.targets[0], st.value
+        host = False
+        while isinstance(v, ast.Call) and isinstance(v.func, ast.Attribute) and v.func.attr in ("tolist", "item", "cpu", "numpy", "double", "float") and not v.args:
+            host = host or v.func.attr in ("tolist", "item", "numpy")
+            v = v.func.value
+        if isinstance(v, ast.Call) and norm_text(v.func) == "torch.stack" and v.args and isinstance(v.args[0], ast.Call):
+            v = v.args[0]
+        if isinstance(v, ast.Call) and norm_text(v.func) in ("torch.aminmax",) and len(v.args) == 1 and isinstance(t, (ast.Tuple, ast.List)) and len(t.elts) == 2 and all(isinstance(x, ast.Name) for x in t.elts):
+            arg = norm_text(v.args[0])
+            env[t.elts[0].id] = ("MIN", arg, "host") if host else ("MIN", arg)
+            env[t.elts[1].id] = ("MAX", arg, "host") if host else ("MAX", arg)
+            continue
+        if isinstance(t, ast.Name) and isinstance(v, ast.Call) and norm_text(v.func) in ("torch.min", "torch.max", "torch.amin", "torch.amax") and len(v.args) == 1:
+            kind = "MIN" if "min" in norm_text(v.func) else "MAX"
+            env[t.id] = (kind, norm_text(v.args[0]), "host") if host else (kind, norm_text(v.args[0]))
+            continue
+        return test, {}
+    return result, env
+
+
+def _canon_minmax(test, env=None):
     """Set of canonical atoms of a domain test: 'MIN(x) < b' / 'MAX(x) > b'."""
+    env = env or {}
     out = set()
     parts = test.values if isinstance(test, ast.BoolOp) and isinstance(test.op, ast.Or) else [test]
 
@@ -868,6 +938,19 @@ def _canon_minmax(test):
             return None
 
         def red(e):
+            if isinstance(e, ast.Name) and e.id in env:
+                return env[e.id]
+            # lo, hi = torch.aminmax(x) / torch.stack(torch.aminmax(x)).tolist(), read as components
+            if isinstance(e, ast.Call) and isinstance(e.func, ast.Name) and e.func.id == "__component__" and len(e.args) == 2 and isinstance(e.args[1], ast.Constant) and e.args[1].value in (0, 1):
+                v, host = e.args[0], False
+                while isinstance(v, ast.Call) and isinstance(v.func, ast.Attribute) and v.func.attr in ("tolist", "item", "cpu", "numpy") and not v.args:
+                    host = host or v.func.attr in ("tolist", "item", "numpy")
+                    v = v.func.value
+                if isinstance(v, ast.Call) and norm_text(v.func) == "torch.stack" and v.args and isinstance(v.args[0], ast.Call):
+                    v = v.args[0]
+                if isinstance(v, ast.Call) and norm_text(v.func) == "torch.aminmax" and len(v.args) == 1:
+                    kind = "MIN" if e.args[1].value == 0 else "MAX"
+                    return (kind, norm_text(v.args[0]), "host") if host else (kind, norm_text(v.args[0]))
             # `.item()` / float(.) turn the extreme into a Python float: the comparison is then
             # made in double precision against a bound that the tensor holds in its own dtype
             if isinstance(e, ast.Call) and isinstance(e.func, ast.Attribute) and e.func.attr == "item" and not e.args:
@@ -971,7 +1054,8 @@ def dom_guard_rule(ctx):
             if not pol:
                 bad = "the guard raises on the negation of `%s`" % norm_text(raw)[:60]
                 continue
-            atoms = _canon_minmax(et)
+            et2, henv = _expand_guard_helper(p, fi.module, et)
+            atoms = _canon_minmax(et2, henv)
             if atoms is None:
                 bad = "guard condition `%s` is not a disjunction of min/max comparisons" % norm_text(et)[:80]
                 continue
